@@ -102,7 +102,7 @@ func families(run *ev.Run) []family {
 			for pres := 0; pres < 3; pres++ {
 				t := outAttr{Mature: mat, Pres: pres, Amount: amt}
 				sTypesAll = append(sTypesAll, t)
-				if mat || pres == presConfirmed {
+				if (mat && pres != presUnconfirmed) || (!mat && pres == presConfirmed) || run.Thorough() {
 					sTypesCore = append(sTypesCore, t)
 				}
 			}
